@@ -47,6 +47,16 @@ def exhaustive(tier):
     odd = [{...: 1}, {...: ...}, {"k": 1, ...: ...}, {...: None, "k": 1}, ..., (1, 2), (), Zoo("set"), Zoo("frozenset"), Zoo("decimal"),
            Zoo("object"), Zoo("nil"), Zoo("bytearray"), Zoo("uuid1"), Zoo("mappingproxy"), Zoo("userdict"), Zoo("range"),
            Zoo("nan"), Zoo("int_subclass"), Zoo("dict_subclass"), Zoo("defaultdict")]
+    fl = [{"t": "float", "precision": 2, "order": ["precision"]}, {"t": "float", "precision": 15, "order": ["precision"]},
+          {"t": "float", "value": float("inf"), "precision": 2, "order": ["precision"]},
+          {"t": "float", "value": 1.7e308, "precision": 3, "order": ["precision"]},
+          {"t": "float", "min": 0.0, "precision": 1, "order": ["min", "precision"]}, {"t": "float"}, {"t": "float", "value": 1.0}]
+    for spec in fl:
+        for x in (float("inf"), float("-inf"), 1e306, 1.7976931348623157e308, -1e308, 1.0, 0.0, Zoo("nan"), 5e-324):
+            for sp, v in ((spec, x), ({"t": "list", "form": "typed", "elem": spec}, [x, 1.0]),
+                          ({"t": "dict", "entries": [{"key": "r", "opt": False, "spec": spec}], "relaxed": False}, {"r": x}),
+                          ({"t": "any", "alts": [spec, {"t": "none"}]}, x)):
+                yield {"spec": sp, "value": v, "full": None, "kind": "float-extremes", "rng": [0.5], "share": False}
     for spec in targets:
         for x in odd:
             for v in (x, {"a": x}, [x], [1, 2, x], {"a": {"b": x}}, [[x]], {"a": [x, 1]}, [1, x, 1, 2]):
